@@ -149,6 +149,7 @@ class Reader:
         self.zeros_boundaries = []
 
         self.memory_segments: List[MemorySegment] = []
+        self._validate_segments_not_overlapping(segments)
         for segment_start, segment_length, data_start, data_length in segments:
             # data is laid out as (flip-word, jump-word) op-pairs, so its length must be even
             #  (the relative-jump reconstruction below relies on this).
@@ -160,6 +161,10 @@ class Reader:
                 raise FlipJumpReadFjmException(
                     f"Bad .fjm file: segment data range [{data_start}, {data_start + data_length})"
                     f" exceeds data pool length {len(data)}."
+                )
+            if data_length > segment_length:
+                raise FlipJumpReadFjmException(
+                    f"Bad .fjm file: segment data-length ({data_length}) exceeds the segment-length ({segment_length})."
                 )
             self.memory_segments.append(MemorySegment(segment_start, segment_length))
             if self.version in (FJMVersion.RelativeJumpVersion, FJMVersion.CompressedVersion):
@@ -178,6 +183,17 @@ class Reader:
                         self.memory[segment_start + i] = 0
                 else:
                     self.zeros_boundaries.append((segment_start + data_length, segment_start + segment_length))
+
+    @staticmethod
+    def _validate_segments_not_overlapping(segments: List[Tuple[int, int, int, int]]) -> None:
+        previous_end = 0
+        for segment_start, segment_length, _, _ in sorted(segments):
+            if segment_length and segment_start < previous_end:
+                raise FlipJumpReadFjmException(
+                    f"Bad .fjm file: overlapping segments (a segment starts at word {hex(segment_start)},"
+                    f" before the previous one ends at word {hex(previous_end)})."
+                )
+            previous_end = max(previous_end, segment_start + segment_length)
 
     def _get_memory_word(self, word_address: int) -> int:
         word_address &= (1 << self.memory_width) - 1
